@@ -328,6 +328,70 @@ def ob_inject_macro(which: int, i: int) -> Optional[str]:
     return None
 
 
+# ----------------------------------------------------------------------------
+# hand-off stage: SubprocSpec.build keeps every argument word, whatever it is equal to
+# ----------------------------------------------------------------------------
+def _vfrec(args, stdin=None):
+    return 0
+
+
+SPECIAL: List[str] = []
+
+
+def _special_words():
+    """Argument words that mean something elsewhere: every name in the session's real alias table (decorator aliases,
+    callable aliases, string aliases), plus operator/marker words. Rebuilt from the running session."""
+    if not SPECIAL:
+        names = sorted(str(k) for k in XSH.aliases)
+        SPECIAL.extend(names + ["@", "@nosuch", "-", "--", "&&", "||", "|", "and", "or", "<", ">", "2>&1", "&", "!", "$A", "~", "*", "", " "])
+    return SPECIAL
+
+
+def _spec_case(kind, pos, j):
+    words = _special_words()
+    w = words[j]
+    args = ["a0", "a1", "a2"]
+    args[pos] = w
+    XSH.aliases["vfrec"] = _vfrec
+    saved = S.locate_executable
+    try:
+        head = "vfrec" if kind == 0 else "cat"  # `cat`: an ordinary program, not in the alias table
+        try:
+            spec = S.SubprocSpec.build([head] + list(args))
+        except Exception as e:  # noqa: BLE001
+            return f"spec-exception: {[head] + args}: {type(e).__name__}: {e}"
+    finally:
+        S.locate_executable = saved
+        del XSH.aliases["vfrec"]
+    if kind == 0:
+        got = list(spec.cmd) if getattr(spec.alias, "func", None) is _vfrec else ["<alias lost>"] + list(spec.cmd)
+        want = args
+    else:
+        got, want = list(spec.cmd), [head] + args
+    if got != want:
+        return f"spec-argument-consumed: `{head} {' '.join(args)}` is handed over as {got} (argument {pos + 1} = {w!r} names something in the alias table or is an operator word; only leading words may be interpreted)"
+    if list(spec.decorators):
+        return f"spec-argument-applied: `{head} {' '.join(args)}`: the argument {w!r} was applied as a decorator ({[d for d in spec.decorators]})"
+    return None
+
+
+def ob_spec_args(kind: int, pos: int, i: int) -> Optional[str]:
+    n = len(_special_words())
+    if not (0 <= kind < 2 and 0 <= pos < 3 and 0 <= i < n):
+        raise Skip()
+    j = 0
+    while j < n - 1 and i != j:
+        j += 1
+    k = 0
+    while k < 2 and pos != k:
+        k += 1
+    r = concretely(_spec_case, 1 if kind else 0, k, j)
+    if r:
+        kd, rest = r.split(":", 1)
+        return viol(kd, lambda: rest.strip())
+    return None
+
+
 def _region_concat(args, v):
     return v.startswith("concat-globbed") or v.startswith("concat-expanded")
 
@@ -352,4 +416,10 @@ OBLIGATIONS = [
                bounds=f"@$() with {len(OUTPUTS)} inner outputs (quotes, glob and expansion characters, blank lines); macro ! with {len(MACROS)} bodies",
                pre=["0 <= i < 20"], parts={"quick": [dict(which=0), dict(which=1)]}, timeout={"quick": 120, "thorough": 300}, prepare=_prepare,
                symbolic="pool index"),
+    Obligation("spec_args", ob_spec_args,
+               bounds="SubprocSpec.build on `head a0 a1 a2` (head = a callable alias / the program `cat`) with one argument replaced by each name of the "
+                      "session's real alias table (every decorator alias, callable and string alias) or an operator/marker word, at each of the 3 positions: "
+                      "spec.cmd keeps the word, no decorator is applied",
+               pre=["0 <= kind < 2", "0 <= pos < 3", "0 <= i < 200"], parts={"quick": [dict(kind=0), dict(kind=1)]},
+               timeout={"quick": 200, "thorough": 300}, prepare=_prepare, symbolic="word index, position"),
 ]
